@@ -6,6 +6,7 @@ CONSTANTS
   QIndirect = FALSE
   QEventIdx = TRUE
   MaxBufs = 2
+  Adversary = FALSE
   WithNotify = FALSE
   Bug = "no_rearm"
 INVARIANTS
